@@ -63,7 +63,7 @@ func runC22(c *CaseCtx) {
 	var cr *CrashRec
 	if state == "crashed" {
 		cr = NewCrashRec(c, run.Dir)
-		cr.Torn = false
+		cr.Torn = true // torn last records too: the two RAM index modes must read a crashed directory alike
 		cr.Mon.Install()
 		cr.PushState(obsModel(run.M, u))
 		cr.SetStep(0, false, "open")
@@ -121,7 +121,7 @@ func runC22(c *CaseCtx) {
 		if cr != nil {
 			cr.Mon.Uninstall()
 			// a handful of crash images of the creator's run
-			for k := 0; k < 6 && len(cr.Images) > 0; k++ {
+			for k := 0; k < 10 && len(cr.Images) > 0; k++ {
 				img := cr.Images[r.Intn(len(cr.Images))]
 				variants = append(variants, variant{snap: img.Snap, want: nil, hasData: obsHasData(cr.States[img.Cur]),
 					label: fmt.Sprintf("crash image before event #%d %s %s", img.Ev.Seq, img.Ev.Op, img.Ev.Path)})
@@ -133,8 +133,10 @@ func runC22(c *CaseCtx) {
 		variants = append(variants, variant{snap: &Snapshot{Files: map[string]string{}}, want: obsModel(NewModel(), u), label: "never opened"})
 	}
 	for vi, v := range variants {
+		obsByMode := map[int][]string{}
 		for rm := 0; rm < 3; rm++ {
-			dir := c.Dir(fmt.Sprintf("v%d-m%d", vi, rm))
+			// directory names with characters that mean something to pattern matching (but nothing to the file system)
+			dir := c.Dir(fmt.Sprintf("v%d-m%d%s", vi, rm, []string{"", "", "[3]", "?q", "*", "a[b", "{x}"}[r.Intn(7)]))
 			os.RemoveAll(dir)
 			if state == "never-opened" && r.Intn(2) == 0 {
 				// directory does not exist at all
@@ -164,6 +166,11 @@ func runC22(c *CaseCtx) {
 			if cross && v.hasData {
 				c.Violate("incompatible-mode-accepted", "mode-matrix", fmt.Sprintf("Open succeeded on data of the other index-mode family: %s", where))
 			}
+			if !cross && v.want == nil && rm != 2 {
+				if got, oerr := obsReal(db, u); oerr == nil {
+					obsByMode[rm] = got
+				}
+			}
 			if !cross && v.want != nil {
 				got, oerr := obsReal(db, u)
 				if oerr != nil || !sameObs(got, v.want) {
@@ -173,6 +180,12 @@ func runC22(c *CaseCtx) {
 			}
 			db.Close()
 			os.RemoveAll(dir)
+		}
+		if a, b := obsByMode[0], obsByMode[1]; a != nil && b != nil {
+			c.Stat("ram_mode_pairs_compared_on_crash_images", 1)
+			if !sameObs(a, b) {
+				c.Violate("ram-modes-differ:"+firstDiffCall(b, a), "mode-matrix", fmt.Sprintf("the two RAM index modes show different contents on the same directory (created in mode %d, %s; got = HintKeyAndRAMIdxMode, want = HintKeyValAndRAMIdxMode):\n%s", cm, v.label, diffObs(b, a)))
+			}
 		}
 	}
 	c.Stat("directories", int64(len(variants)))
